@@ -14,9 +14,13 @@ RULE = ("a case is one whole frame history (30-250 EByte packets) over 2-4 concu
         "fast-packet messages with boundary-heavy lengths; per message: non-first frames shuffled, dropped (15%), "
         "duplicated (30%), last frame padded with random non-zero bytes, stale frames of other sequence counters, "
         "duplicated first frames, plus a malformed share (frames truncated to 0-2 bytes, first frames re-using the "
-        "current counter, frame counters beyond the message, over-long length nibbles); observed per packet = None / "
-        "payload integer rebuilt from the fields of the fallback definition / IndexError / decode-function exception; "
-        "non-trivial = the history delivers at least one message; distinct by packet list")
+        "current counter, frame counters beyond the message, over-long length nibbles); a quarter of the histories use "
+        "key triples that collide under an ambiguous key format; distractor traffic of a single-frame PGN (61184), of a "
+        "PGN unknown to pgns.py and of a fast PGN whose decode function always raises (record kept); observed per "
+        "packet = None / payload integer rebuilt from the fields of the fallback definition / IndexError / "
+        "decode-function exception, and at the end of the history the reassembly buffers (decoder.data: announced "
+        "length, bytes stored, counter, frames); non-trivial = the history delivers at least one message; distinct "
+        "by packet list")
 TRUSTED = ["FastPacket.v is a hand model of decoder._decode_fast_message / _decode (default-configured decoder) in wire "
            "byte order; tied to the code only by the history correspondence of this run",
            "CorrFastPacket.tcp_frame (length nibble, big-endian identifier) + Header.extract_header stand for the "
@@ -30,10 +34,14 @@ ASSUMPTIONS = ["sequence counters of consecutive messages on one stream differ (
 ALWAYS_SEARCH = True
 
 IMPORTS = "From NV Require Import Base Header FastPacket CorrFastPacket."
-CASE_TY = "((list Z * list Z) * list (list Z)) * list obs"
+CASE_TY = "((((list Z * list Z) * list Z) * list (list Z)) * list obs) * option (list (key * rec_obs))"
 
 FALLBACK = {126720: "0x1ef00ManufacturerProprietaryFastPacketAddressed",
-            130816: "0x1ff000x1ffffManufacturerSpecificFastPacketNonAddressed"}
+            130816: "0x1ff000x1ffffManufacturerSpecificFastPacketNonAddressed",
+            61184: "0xef00ManufacturerProprietarySingleFrameAddressed"}      # single-frame distractor
+FAST = [126720, 130816]
+SINGLE = [61184]
+UNKNOWN_CANDIDATES = [65535, 64000, 58880]                                  # no is_fast_pgn_N in pgns.py
 RAISING_CANDIDATES = [126983, 126984, 126985, 130833]
 LENGTHS = [0, 1, 2, 5, 6, 7, 8, 12, 13, 14, 15, 19, 20, 21, 27, 28, 34, 41, 100, 216, 217, 222, 223]
 BITS = 16 + 1768
@@ -147,14 +155,31 @@ def stream_keys(rng, nstreams, rpgn):
     rest = [k for k in pool if k not in keys]
     rng.shuffle(rest)
     keys += rest[:max(0, nstreams - 2)]
+    if rng.random() < 0.25:    # pairs that collide under an ambiguous or order-insensitive key format
+        keys = list(rng.choice([[(126720, 1, 23), (126720, 12, 3), (126720, 1, 2), (130816, 12, 255)],
+                                [(126720, 11, 1), (126720, 1, 11), (126720, 111, 0), (130816, 1, 255)],
+                                [(126720, 7, 20), (126720, 72, 0), (126720, 0, 72), (130816, 72, 255)]]))[:max(2, nstreams)]
     if rpgn is not None and rng.random() < 0.35:
         keys.append((rpgn, a, 255))
+    if rng.random() < 0.3:
+        keys.append((SINGLE[0], a, x))
+    if rng.random() < 0.3:
+        import nmea2000.pgns as P
+        u = [p for p in UNKNOWN_CANDIDATES if not hasattr(P, f"is_fast_pgn_{p}")]
+        if u:
+            keys.append((u[0], b, 255 if (u[0] >> 8) & 0xFF >= 240 else y))
     return keys
 
 
 def gen_stream(rng, key, nmsgs, pgns_mod, padding, malformed, stats):
     """frames (lists of 0..8 wire bytes, plus optional nibble override) of one stream"""
     out = []
+    if key[0] in SINGLE or key[0] in UNKNOWN_CANDIDATES:       # distractors: single-frame / unknown PGN traffic
+        for _ in range(nmsgs * 2):
+            n = rng.choice([0, 1, 2, 3, 8, 8, 8])
+            f = fallback_payload(rng, key[0], n, pgns_mod) if key[0] in FALLBACK else [rng.getrandbits(8) for _ in range(n)]
+            out.append((f, None))
+        return out
     seq = rng.randrange(8)
     for _ in range(nmsgs):
         n = rng.choice(LENGTHS) if rng.random() < 0.25 else rng.choice([7, 8, 9, 13, 14, 16, 20, 21, 22, 27])
@@ -239,15 +264,38 @@ def gen_history(rng, pgns_mod, rpgn, padding="random", malformed=True, stats=Non
     return keys, hist
 
 
-def run_history(hist):
+def final_state(dec):
+    """the reassembly buffers as (key triple, (payload_length, bytes_stored, sequence_counter), frames in wire order);
+    None (comparison skipped) when the internals are not shaped as in the pinned tree"""
+    try:
+        out = []
+        for ks, r in dec.data.items():
+            pgn, src, dst = (int(x) for x in ks.split("_"))
+            out.append(((pgn, src, dst), (int(r.payload_length), int(r.bytes_stored), int(r.sequence_counter)),
+                        sorted((int(k), list(bytes(v)[::-1])) for k, v in r.frames.items())))
+        return out
+    except Exception:  # noqa: BLE001
+        return None
+
+
+def run_history(hist, want_state=False):
     from nmea2000.decoder import NMEA2000Decoder
     dec = NMEA2000Decoder()
-    return [observe(dec, pk) for pk in hist]
+    obs = [observe(dec, pk) for pk in hist]
+    return (obs, final_state(dec)) if want_state else obs
 
 
-def hist_case(fast, raising, hist, obs):
-    return ctuple(ctuple(ctuple(clist(cz(p) for p in fast), clist(cz(p) for p in raising)),
-                         clist(cbytes(pk) for pk in hist)), clist(cobs(o) for o in obs))
+def cstate(st):
+    if st is None:
+        return "None"
+    return "(Some " + clist(ctuple(ctuple(*(cz(x) for x in k)), ctuple(ctuple(*(cz(x) for x in r)),
+                                   clist(ctuple(cz(i), cbytes(d)) for i, d in fs))) for k, r, fs in st) + ")"
+
+
+def hist_case(fast, raising, hist, obs, final=None):
+    return ctuple(ctuple(ctuple(ctuple(ctuple(clist(cz(p) for p in fast), clist(cz(p) for p in SINGLE)),
+                                       clist(cz(p) for p in raising)),
+                                clist(cbytes(pk) for pk in hist)), clist(cobs(o) for o in obs)), cstate(final))
 
 
 def corr_histories(ctx, prop, name, n, padding, malformed):
@@ -256,18 +304,20 @@ def corr_histories(ctx, prop, name, n, padding, malformed):
     rpgn = raising_pgn(rng)
     if rpgn is None:
         ctx.notes.append("no always-raising fast PGN found: the DecRaise branch is not exercised in this run")
-    fast = sorted(FALLBACK) + ([rpgn] if rpgn else [])
+    fast = list(FAST) + ([rpgn] if rpgn else [])
     raising = [rpgn] if rpgn else []
     stats, cases, hists, obss = {}, [], [], []
     kinds = {"none": 0, "msg": 0, "dec": 0, "index": 0, "other": 0}
+    nstate = 0
     for _ in range(n):
         _, hist = gen_history(rng, P, rpgn, padding=padding, malformed=malformed, stats=stats)
-        obs = run_history(hist)
+        obs, final = run_history(hist, want_state=True)
         for o in obs:
             kinds[o[0]] += 1
+        nstate += final is not None
         hists.append(hist)
         obss.append(obs)
-        cases.append(hist_case(fast, raising, hist, obs))
+        cases.append(hist_case(fast, raising, hist, obs, final))
     r = run_cases(prop, name, IMPORTS, CASE_TY, "chk_hist", cases, shard=max(8, (len(cases) + 15) // 16))
     r.update(name=f"decode_tcp histories vs dec_run ({name})", n=sum(len(h) for h in hists),
              histories=len(hists),
@@ -275,12 +325,12 @@ def corr_histories(ctx, prop, name, n, padding, malformed):
              failing_cases=[{"kind": "history", "packets": [pk.hex() for pk in hists[k]]} for k in r["failing"][:5]],
              samples=[{"packets": [pk.hex() for pk in hists[0][:6]], "observed": [list(o)[:2] for o in obss[0][:6]]}],
              distribution={"histories": len(hists), "packets": sum(len(h) for h in hists), "observations": kinds,
-                           "padding": padding, "malformed_share": malformed, "events": stats, "raising_pgn": rpgn})
+                           "padding": padding, "malformed_share": malformed, "events": stats, "raising_pgn": rpgn, "final_buffers_compared": nstate})
     return r
 
 
 def correspond(ctx):
-    return [corr_histories(ctx, "C04", "hist", ctx.n(160, 1600), "random", True)]
+    return [corr_histories(ctx, "C04", "hist", ctx.n(160, 4000), "random", True)]
 
 
 # ------------------------------------------------------------------ property oracle on the real decoder
@@ -340,8 +390,11 @@ def check_history(events, label):
             else:
                 key = "exception:" + o[0]
             want = "None" if x[0] == "none" else "payload " + bytes(x[1]).hex()
+            seen = ("payload " + o[1].to_bytes(max(1, (o[1].bit_length() + 7) // 8), "little").hex()
+                    + f" on stream {o[2]}") if o[0] == "msg" else {"none": "None", "dec": "an exception of the PGN decoder",
+                                                                    "index": "IndexError"}.get(o[0], str(o[:2]))
             return {"key": key, "kind": "history", "label": label, "at": i,
-                    "what": f"{label}: packet {i} of {len(hist)} (stream {events[i][0]}): expected {want}, observed {list(o)[:2]}",
+                    "what": f"{label}: packet {i} of {len(hist)} (stream {events[i][0]}): expected {want}, observed {seen}",
                     "packets": [p.hex() for p in hist],
                     "expected": [["none"] if x[0] == "none" else ["msg", int.from_bytes(bytes(x[1]), "little")] for x in expected],
                     "keys": [list(k) for k, _, _ in events]}
@@ -379,9 +432,8 @@ def search_small_scope(ctx, P, budget):
     interleaving of the two streams. Sampled down to `budget` histories outside the thorough tier."""
     rng = ctx.rng
     pad = lambda k: [rng.randrange(1, 256) for _ in range(k)]  # noqa: E731
-    ka, kb = (126720, 7, 20), (rng.choice([126720, 130816]), 9, 20)
-    if kb[0] == 130816:
-        kb = (130816, 9, 255)
+    ka = (126720, 7, 20)
+    kb = rng.choice([(126720, 9, 20), (126720, 7, 21), (130816, 9, 255), (130816, 7, 255), (126720, 72, 0), (126720, 20, 7)])
     seqs_a = [s for L in range(4) for s in itertools.product([1, 2], repeat=L)]
     seqs_b = [s for L in range(3) for s in itertools.product([1], repeat=L)]
     combos = [(sa, sb) for sa in seqs_a for sb in seqs_b]
@@ -419,7 +471,7 @@ def search_small_scope(ctx, P, budget):
 def search_random(ctx, P, n):
     rng = ctx.rng
     for it in range(n):
-        keys = stream_keys(rng, rng.choice([2, 3, 4]), None)
+        keys = [k for k in stream_keys(rng, rng.choice([2, 3, 4]), None) if k[0] in FAST]
         streams = []
         for k in keys:
             seq = rng.randrange(8)
@@ -491,7 +543,7 @@ def search(ctx):
     ctx.notes.append(f"small-scope search: {total} histories" + (" (complete enumeration)" if ctx.thorough and not w else ""))
     if w:
         out.append(w)
-    w = search_random(ctx, P, ctx.n(150, 3000))
+    w = search_random(ctx, P, ctx.n(150, 6000))
     if w:
         out.append(w)
     return out
